@@ -87,7 +87,11 @@ func VerifH_C10_scan() {
 	tip := 3
 	grow := 0
 	if vpParam("nogrow", 0) == 0 {
-		grow = vpRange("tipGrows", 0, 1)
+		// blocks that arrive between two tip snapshots of the running scan
+		grow = vpRange("tipGrows", vpParam("mingrow", 0), vpParam("maxgrow", 1))
+	}
+	if grow >= 2 {
+		vpReach("several-blocks-arrive-during-the-scan")
 	}
 	finalTip := tip + grow
 
